@@ -702,3 +702,32 @@ Proof. vm_compute. repeat split; reflexivity. Qed.
 Example ex_pp : rx_tokens [(0, 128); (5, tok_PING); (7, 129); (9, tok_PONG); (2 ^ 448 - 1, tok_PING); (1, 137)]
   = ([(0, 128); (7, 129); (1, 137)], [5; 2 ^ 448 - 1]).
 Proof. vm_compute. reflexivity. Qed.
+
+(* ------------------------------------------------------------------------------------------
+   10. PING / PONG in every receiver state (also while a rejected sequence is being discarded)   *)
+
+Definition strip (toks : list tok) : list tok := filter (fun t => negb (is_pp t)) toks.
+
+Theorem rx_disc_spec bad toks : forall d i,
+  rx_disc bad d i toks =
+  (fst (rx_disc bad d i (strip toks)), map fst (filter (fun t => snd t =? tok_PING) toks)).
+Proof.
+  induction toks as [|[h ty] r IH]; intros d i; [reflexivity|].
+  cbn [rx_disc strip filter map]. unfold is_pp. cbn [snd fst].
+  destruct (ty =? tok_PING) eqn:E1; cbn [orb negb].
+  - rewrite IH. reflexivity.
+  - destruct (ty =? tok_PONG) eqn:E2; cbn [negb].
+    + rewrite IH. reflexivity.
+    + cbn [rx_disc]. rewrite E1, E2. destruct d as [|d'].
+      * destruct (bad i (h, ty)); [apply IH|].
+        rewrite IH. unfold strip, is_pp.
+        match goal with |- context [rx_disc bad 0 (S i) ?x] => destruct (rx_disc bad 0 (S i) x) end. reflexivity.
+      * destruct (ty =? tok_OPEN); [apply IH|]. destruct (ty =? tok_CLOSE); apply IH.
+Qed.
+
+Example ex_disc :
+  let bad := fun (i : nat) (t : tok) => Nat.eqb i 2 in
+  rx_disc bad 0 0 [(0, tok_OPEN); (4, tok_PING); (1, 129); (2, 129); (9, tok_PING); (0, tok_OPEN); (8, tok_PONG); (7, tok_PING);
+                   (0, tok_CLOSE); (3, 129); (0, tok_CLOSE); (6, tok_PING); (5, 129)]
+  = ([(0, tok_OPEN); (1, 129); (5, 129)], [4; 9; 7; 6]).
+Proof. vm_compute. reflexivity. Qed.
